@@ -100,7 +100,7 @@ def pipeline(ctx, cases_by=None):
         # (2) seeded random walks over the wide argument classes
         d3 = 10 if q else 18
         sim = ctx.tlc_gen("Pics_MC.tla", gencfg(ctx, "gen_sim.cfg", ["wide"], "sim", d3), "sim", mode="sim",
-                          num=150 if q else 2500, depth=d3 + 3)
+                          num=150 if q else 2000, depth=d3 + 3)
         allc += sim
         count_ops(cnt, allc)
         judge(ctx, allc, "gen")
